@@ -477,7 +477,7 @@ func judgeOutcome(t *testing.T, v *harness.Verdict, s *scene, out outcome, log [
 		if ps, ok := out.panicked.(string); ok && strings.HasPrefix(ps, "harness:") {
 			t.Fatalf("%s", ps)
 		}
-		if c.EmptyChain && c.Method == "AddChain" {
+		if c.EmptyChain && c.Method == "AddChain" && len(log) > 0 && log[len(log)-1].b.Status == 200 {
 			v.Failf("addchain-empty-chain-panic", "AddChain with an empty chain panicked once the server answered %d: %v", log[len(log)-1].b.Status, out.panicked)
 			return
 		}
